@@ -13,7 +13,7 @@ import subprocess
 import time
 
 VERIF = os.path.dirname(os.path.dirname(os.path.abspath(__file__)))
-REPLAY_DIR = os.path.join(VERIF, "replays")
+REPLAY_DIR = os.environ.get("VERIF_REPLAY_DIR") or os.path.join(VERIF, "replays")
 MAX_REPLAYS = int(os.environ.get("VERIF_MAX_REPLAYS", "2"))
 _done = {"n": 0}
 
@@ -82,7 +82,7 @@ def confirm_violation(ws, h, logfile):
         json.dump(rec, open(path, "w"), indent=1)
         return path, False, "not replayed: replay budget used"
     _done["n"] += 1
-    cmd = kani_base(ws, h.crate) + ["--harness", h.name, "-Z", "concrete-playback", "--concrete-playback=print",
+    cmd = kani_base(ws, h.crate) + ["--exact", "--harness", h.pretty or h.name, "-Z", "concrete-playback", "--concrete-playback=print",
                                     "--output-format", "terse"]
     if h.resolved_unwindset:
         cmd += ["--cbmc-args", "--unwindset", ",".join("%s:%d" % kv for kv in h.resolved_unwindset)]
